@@ -9,6 +9,10 @@ type GenBounds struct {
 	MaxOut   int  // outputs per tx
 	Coinbase bool // allow coinbase transactions
 	Shared   int  // number of shared external outpoint ids (0..2)
+	// PlainOuts drops the change-flag variant of credited outputs in
+	// transactions with two outputs (the flag is exercised by single-output
+	// transactions and the curated shapes); keeps the enumeration tractable.
+	PlainOuts bool
 }
 
 // Generate enumerates every universe inside the bounds, with light symmetry
@@ -70,7 +74,11 @@ func Generate(gb GenBounds, emit func(*Universe)) {
 				outSets = append(outSets, append([]Out{}, cur...))
 				return
 			}
-			for _, o := range []Out{{Credit: true}, {Credit: true, Change: true}, {}} {
+			kinds := []Out{{Credit: true}, {Credit: true, Change: true}, {}}
+			if gb.PlainOuts && n > 1 {
+				kinds = []Out{{Credit: true}, {}}
+			}
+			for _, o := range kinds {
 				genOuts(append(cur, o), n)
 			}
 		}
